@@ -245,7 +245,11 @@ impl Project {
                 self.root.add_design_file(library_name.clone(), design_file);
             }
 
-            diagnostics.extend(source_file.parser_diagnostics.iter().cloned());
+            // A file which is no longer part of any library (removed from the
+            // configuration or deleted) is not analysed, it must not report either
+            if !source_file.library_names.is_empty() {
+                diagnostics.extend(source_file.parser_diagnostics.iter().cloned());
+            }
         }
 
         for library_name in self.empty_libraries.iter() {
